@@ -25,8 +25,8 @@ META = dict(
 
 DOMAINS = {"quick": "zones {0, -0000, -0530}^2, 4 extra-header sequences, times equal?, and (gpgsig, 2 mergetags, "
                     "2 parents) all on or all off",
-           "full": "zones {0, -0000, +0100, -0530}^2, 8 extra-header sequences, times equal?, gpgsig?, "
-                   "mergetags = parents in 0..2"}
+           "full": "author zone {0, -0000, +0100, -0530} x commit zone {0, -0000, -0530}, 6 extra-header sequences, "
+                   "times equal?, gpgsig?, mergetags = parents in 0..2"}
 DEFAULTS = {"enc": "absent", "tb": "ascii", "ident": "same", "teq": True, "atz": "0", "ctz": "0", "gpg": False,
             "mt": 0, "extra": [], "msg": "text", "par": 0}
 FIELDS = ["enc", "tb", "ident", "teq", "atz", "ctz", "gpg", "mt", "extra", "msg", "par"]
@@ -199,9 +199,8 @@ def observe(c):
     return o
 
 
-def _fails(c):
-    """{law: outcome class} of the laws that fail for abstract commit c on the real code."""
-    o = observe(c)
+def _failure(o):
+    """{law: outcome class} of the laws that an observation fails."""
     f = {}
     if not o["accepted"]:
         return f
@@ -212,6 +211,11 @@ def _fails(c):
     if o["revid"] != "stable":
         f["revid"] = o["revid"].split(":", 1)[1]
     return f
+
+
+def _fails(c):
+    """The same for abstract commit c executed now on the real code (used to minimise a failing case)."""
+    return _failure(observe(c))
 
 
 def input_class(c, law, outcome, known):
@@ -230,6 +234,20 @@ def input_class(c, law, outcome, known):
     cls = tuple((f, cur[f]) for f in FIELDS if cur[f] != DEFAULTS[f])
     known.append(cls)
     return cls
+
+
+def _report(ctx, c, o, failed, known):
+    """One ctx.violation per failed law, with the narrow signature law:site:outcome:input-class."""
+    for law in failed:
+        outcome = _failure(o).get(law)
+        if outcome is None:
+            ctx.machinery("law %s failed for TLC but not for the harness: %s %s" % (law, c, o))
+        cls = input_class(c, law, outcome, known.setdefault((law, outcome), []))
+        site = "export_commit" if law == "roundtrip" else "revision-id"
+        ctx.violation("%s:%s:%s:%s" % (law, site, outcome, _fmt_class(cls)),
+                      "law %s fails: commit %s accepted by import_commit (properties %s), export outcome parsed=%s "
+                      "constructed=%s revid=%s" % (law, c, o["keys"], o["out"], o["outC"], o["revid"]),
+                      {"c": c, "impl": o})
 
 
 def _fmt_class(cls):
@@ -292,18 +310,9 @@ def run(ctx):
     extra = {id(j): r for j, r in zip(judged, rows)}
     known = {}
     ndrift = 0
-    for row, failed, drift in table.judge(ctx, "GitCommitMapTrace", judged):
+    for row, failed, drift in table.judge(ctx, "GitCommitMapTrace", judged, chunk=40000):
         c, o, full = row["c"], row["impl"], extra[id(row)]
-        for law in failed:
-            outcome = _fails(c).get(law)
-            if outcome is None:
-                ctx.machinery("law %s failed in the recorded row but not on re-execution: %s" % (law, row))
-            cls = input_class(c, law, outcome, known.setdefault((law, outcome), []))
-            site = "export_commit" if law == "roundtrip" else "revision-id"
-            ctx.violation("%s:%s:%s:%s" % (law, site, outcome, _fmt_class(cls)),
-                          "law %s fails: commit %s accepted by import_commit (properties %s), export outcome parsed=%s "
-                          "constructed=%s revid=%s" % (law, c, o["keys"], o["out"], o["outC"], o["revid"]),
-                          {"c": c, "impl": o, "diff": full["diff"], "diffC": full["diffC"]})
+        _report(ctx, c, dict(o, diff=full["diff"], diffC=full["diffC"]), failed, known)
         if drift:
             ndrift += 1
             if ndrift <= 20:
@@ -319,6 +328,6 @@ def replay(ctx, rep):
     print("abstract commit:", c)
     print("bytes:", raw)
     o = observe(c)
-    print("observed:", o)
-    for law, outcome in sorted(_fails(c).items()):
-        ctx.violation("%s:replay:%s" % (law, outcome), "replayed: %s" % (o,), {"c": c, "impl": o})
+    print("recorded:", rep["replay"]["impl"])
+    print("now:     ", o)
+    _report(ctx, c, o, sorted(_failure(o)), {})
